@@ -34,7 +34,7 @@ fn meta() -> Meta {
     Meta {
         id: "C09",
         level: "model_checking",
-        rule: "every sequence up to the depth bound of (clock step, write) with steps {0, +1 s, +2 s, +1 min, +1 h, +1 day, +31 days (same day of next month), +365 days (same date next year), +40 days}, from 7 base instants (mid-period, 2 s before a minute / hour / month+day / year boundary, and 0.4 s before a minute / day boundary), for Age{Second,Minute,Hour,Day} x naming x start {fresh, append onto a current file of the same period, of an earlier period} x {Age, AgeOrSize huge, AgeOrSize small} x {TZ UTC, Asia/Kolkata, Asia/Kolkata+use_utc, America/St_Johns}; states = distinct (configuration, partition shape) reached; non-trivial = at least one age rotation predicted; two more base instants lie 0.4 s before a minute / day boundary",
+        rule: "every sequence up to the depth bound of (clock step, write) with steps {0, +1 s, +2 s, +1 min, +1 h, +1 day, +31 days (same day of next month), +365 days (same date next year), +40 days}, from 7 base instants (mid-period, 2 s before a minute / hour / month+day / year boundary, and 0.4 s before a minute / day boundary), for Age{Second,Minute,Hour,Day} x naming x start {fresh, append onto a current file of the same period, of an earlier period, onto an empty one of an earlier period} x {Age, AgeOrSize huge, AgeOrSize small} x {TZ UTC, Asia/Kolkata, Asia/Kolkata+use_utc, America/St_Johns}; states = distinct (configuration, partition shape) reached; non-trivial = at least one age rotation predicted; two more base instants lie 0.4 s before a minute / day boundary",
         assumptions: vec![
             "the clock seam (guarded hook) replaces Local::now() and the creation-time lookup; a real-time Age::Second run without the hook cross-checks the file-metadata path (thorough tier)".into(),
             "no write instants inside a DST fall-back hour".into(),
@@ -71,7 +71,7 @@ fn units(_tier: &str) -> usize {
     TZS.len() * AGES.len() * NG.len() + 1
 }
 fn bounds(tier: &str) -> Value {
-    json!({"time_zones": TZS.len(), "ages": 4, "namings": NG.len(), "start_states": 3, "criteria": 3, "base_instants": bases().len(), "steps": STEPS, "depth": depth(tier)})
+    json!({"time_zones": TZS.len(), "ages": 4, "namings": NG.len(), "start_states": 4, "criteria": 3, "base_instants": bases().len(), "steps": STEPS, "depth": depth(tier)})
 }
 
 #[derive(Clone, Debug)]
@@ -141,11 +141,15 @@ fn run_word(c: &Case, steps: &[i64]) -> Result<(Vec<usize>, usize), (String, Str
             NamingK::NumbersDirect => "app_r00000.log".to_string(),
             NamingK::TimestampsDirect | NamingK::CustomDirect | NamingK::CoarseDirect => format!("app_{}.log", infix_of(c, &created).unwrap()),
         };
-        let content = format!("seeded{ending}");
+        // (with the small size limit the seeded file is already over the limit: the first write
+        // meets the size part, and for an earlier period also the age part of AgeOrSize)
+        let seeded_text = if c.crit == 2 { "seeded-and-longer" } else { "seeded" };
+        // start state 3: an empty current file of an earlier period
+        let content = if c.start == 3 { String::new() } else { format!("{seeded_text}{ending}") };
         let p = env.dir.join(name);
         std::fs::write(&p, &content).map_err(|e| ("machinery".to_string(), e.to_string()))?;
         env.clock.set_created(&p, created);
-        pred.files.push((created, vec!["seeded".into()]));
+        pred.files.push((created, if c.start == 3 { vec![] } else { vec![seeded_text.into()] }));
         cur_size = content.len() as u64;
     }
     env.enter();
@@ -262,7 +266,7 @@ fn cause(c: &Case, steps: &[i64]) -> String {
         c.age,
         boundary_kind(c, steps),
         c.naming.short(),
-        ["fresh", "append-same-period", "append-earlier-period"][c.start as usize],
+        ["fresh", "append-same-period", "append-earlier-period", "append-empty-earlier-period"][c.start as usize % 4],
         if c.tz == "UTC" { "utc-zone" } else { "offset-zone" },
         if c.use_utc { "+use_utc" } else { "" }
     )
@@ -297,7 +301,7 @@ fn run_unit(tier: &str, unit: usize, out: &mut Out) {
     let naming = NG[unit % NG.len()];
     set_tz(tz);
     let d = depth(tier);
-    for start in 0..3u8 {
+    for start in 0..4u8 {
         for crit in 0..3u8 {
             for base in 0..bases().len() {
                 let c = Case {
